@@ -32,7 +32,7 @@ fn get_custom_impl(fmt_str: &str, crate_path: &TokenStream) -> TokenStream {
             },
             // This is the body of C impl minus the automatic wrapping.
             {
-                write!(f_out, #fmt_str, this)
+                write!(f_out, #fmt_str, *this)
             },
             // This part is processed in the trait impl after the call returns (impl_func_ret,
             // nothing extra needs to happen here).
